@@ -151,6 +151,9 @@ def cq_gobs(r):
 # running
 # --------------------------------------------------------------------------------------
 
+SETUP_FAILURES = []
+
+
 def has_dup_cols(t):
     names = [c["name"] for c in t["cols"]]
     return len(set(names)) != len(names)
@@ -176,7 +179,12 @@ def run_go(ctx, cases):
         raise RuntimeError("select driver failed: " + lg[-3000:])
     for c, o in zip(cases, obs):
         if o.get("setup_err"):
-            raise RuntimeError("driver could not load a table: %s\n%s" % (o["setup_err"], json.dumps(c)[:2000]))
+            # a valid CREATE TABLE / INSERT of the generated contents was refused: that is an observation
+            # about the code (e.g. a string value spelled like a keyword), reported as a violation with the
+            # tables as input; the queries of this case are not evaluated
+            SETUP_FAILURES.append({"tables": c["tables"], "error": o["setup_err"]})
+            o["results"] = [{"parse_err": "setup"} for _ in c["queries"]]
+            continue
         if len(o["results"]) != len(c["queries"]):
             raise RuntimeError("driver returned %d results for %d queries" % (len(o["results"]), len(c["queries"])))
     return obs
@@ -297,6 +305,16 @@ def shrink(ctx, case, qi, which, name, sm_fn, budget=30):
 
 def report_failures(ctx, out, cases, obs, res, name, sm_fn, what_sm, max_each=2):
     """fill out["spec_violations"] / out["model_mismatches"] from failing items (shrunk)"""
+    seen_err = set()
+    for sf in SETUP_FAILURES:
+        if sf["error"] in seen_err or len(out["spec_violations"]) >= max_each:
+            continue
+        seen_err.add(sf["error"])
+        out["spec_violations"].append({
+            "case": {"tables": sf["tables"], "queries": []}, "observed": {"setup_error": sf["error"]},
+            "what": "loading valid table contents failed (CREATE TABLE / INSERT of generated values was refused): " + sf["error"][:300],
+            "replay_cmd": "python3 tools/check.py %s --replay <this file>" % ctx.pid})
+    del SETUP_FAILURES[:]
     for which, key in (("SM", "spec_violations"), ("MM", "model_mismatches")):
         for ci, qi in res.get(which, [])[:max_each]:
             small = shrink(ctx, cases[ci], qi, which, name, sm_fn)
@@ -315,7 +333,9 @@ def report_failures(ctx, out, cases, obs, res, name, sm_fn, what_sm, max_each=2)
 # --------------------------------------------------------------------------------------
 
 STR_ALPHABET = ["a", "b", "c", "ab", "bc", "x", "y", "A", "B", "aa", "a b", "z9", "0", "10", "9",
-                'q"r', "a,b", ",", '"', "a\\'b", "<nil>", "true", "1,", '"a",', "", "mm", "zz", "Ab"]
+                'q"r', "a,b", ",", '"', "a\\'b", "<nil>", "true", "1,", '"a",', "", "mm", "zz", "Ab",
+                # strings spelled like reserved words and symbols: they are values, not syntax
+                "on", "or", "false", "null", "select", "*", "=", "left", "(", "desc"]
 
 
 def gen_value(rng, ty, pnull=0.0, small=True):
